@@ -410,6 +410,10 @@ contract(AC + ".__init__",
                   "advertised_details_kept": "self._sn == sn and self._name == name and self._version == version",
                   "transport_targets_the_device": "self._lan._ip == ip and self._lan._port == port and self._lan._device_id == device_id",
                   "nothing_pending": "len(self._updated_properties) == 0 and len(self._supported_properties) == 0",
+                  # until a capabilities response says otherwise nothing the device reports is discarded or rewritten on read-back
+                  "c01.reported_values_kept_until_capabilities_are_known": "self._supports_custom_fan_speed == True and self._supports_humidity == False "
+                                                                           "and self._request_energy_usage == False and self._use_binary_energy == False",
+                  "not_online_yet": "self._online == False and self._supported == False",
                   "c10.defaults_are_encodable": "self._operational_mode == AirConditioner.OperationalMode.AUTO and self._fan_speed == AirConditioner.FanSpeed.AUTO "
                                                 "and self._swing_mode == AirConditioner.SwingMode.OFF and self._target_temperature == 17.0 and self._aux_mode == AirConditioner.AuxHeatMode.OFF"},
          notes="C01/C10/C16: a new device object satisfies the typed-attribute invariant the other contracts assume, has no pending property "
